@@ -61,22 +61,6 @@ theorem C05_ping (H : Bytes → Bytes) (cfg : Cfg) (salt nonce : Bytes) :
 
 /-! ### server-side helpers: `NewPong`, `ValidatePingDigest`, `ValidatePongDigest` -/
 
-/-- `computeHexDigest(salt, hostname, nonce, key)` -/
-def hexDigest (H : Bytes → Bytes) (salt hostname nonce key : Bytes) : Bytes := H (salt ++ hostname ++ nonce ++ key)
-
-/-- `ValidatePingDigest(p, key, nonce)` -/
-def validatePing (H : Bytes → Bytes) (p : Ping) (key nonce : Bytes) : Bool :=
-  p.digest == hexDigest H p.salt p.hostname nonce key
-
-/-- `ValidatePongDigest(p, key, nonce, salt)` -/
-def validatePong (H : Bytes → Bytes) (p : Pong) (key nonce salt : Bytes) : Bool :=
-  p.digest == hexDigest H salt p.hostname nonce key
-
-/-- `NewPong(authResult, reason, hostname, key, helo, ping)` -/
-def newPong (H : Bytes → Bytes) (auth : Bool) (reason hostname key nonce : Bytes) (ping : Ping) : Pong :=
-  { mtype := [0x50, 0x4f, 0x4e, 0x47], authResult := auth, reason := reason, hostname := hostname,
-    digest := hexDigest H ping.salt hostname nonce key }
-
 /-- a server holding the same key validates the client's PING -/
 theorem C05_server_accepts_ping (H : Bytes → Bytes) (cfg : Cfg) (salt nonce : Bytes) :
     validatePing H (pingMsg H cfg salt nonce) (cfg.sharedKey.getD []) nonce = true := by
